@@ -188,6 +188,34 @@ class AsciiBuiltins(Direct):
             self.same(run, f"{name}.interp.after_opt", expr_acceptor(Parser.BUILTIN[name]), d)
 
 
+def _generated_choices(n: int | None = None):
+    """a generated family of mixed choices over a small pool of code points (so that nesting, touching, duplicates and
+    the class-special characters occur); each instance is decided for ALL code points.  Size: 40 (quick) / 300 (thorough)."""
+    import os
+    import random
+
+    from pest.grammar import Range, String
+
+    tier = os.environ.get("VERIF_TIER", "quick")
+    n = n or (300 if tier == "thorough" else 40)
+    rnd = random.Random(int(os.environ.get("VERIF_SEED", "0")) + 12)
+    pool = sorted("abcdefghij-]^\\[0189") + ["\u00e9", "\u03b1", "\u03b2", "\U00010000", "\U00010001"]
+    out = []
+    for i in range(n):
+        alts, expect = [], []
+        for _ in range(rnd.randint(1, 5)):
+            if rnd.random() < 0.65:
+                lo, hi = sorted((rnd.choice(pool), rnd.choice(pool)))
+                alts.append(Range(lo, hi))
+                expect.append((lo, hi))
+            else:
+                c = rnd.choice(pool)
+                alts.append(String(c))
+                expect.append((c, c))
+        out.append((f"gen{i}", alts, expect))
+    return out
+
+
 def _choice_catalogue():
     from pest.grammar import Choice, CIString, Range, String
 
@@ -209,7 +237,11 @@ def _choice_catalogue():
         ("nested", [Choice(S("a"), S("b")), R("0", "1")], [("a", "b"), ("0", "1")]),
         ("touching", [R("a", "b"), R("c", "c"), S("d")], [("a", "d")]),
         ("nul", [S("\x00"), R("\x01", "\x02")], [("\x00", "\x02")]),
-    ]
+        ("range-inside-range", [R("a", "z"), R("c", "e")], [("a", "z")]),
+        ("range-inside-range-rev", [R("c", "e"), R("a", "z"), R("d", "d")], [("a", "z")]),
+        ("ascii-and-digits", [R("\x00", "\x7f"), R("0", "9")], [("\x00", "\x7f")]),
+        ("chain", [R("a", "c"), R("b", "h"), R("d", "e"), R("i", "i"), R("k", "l")], [("a", "i"), ("k", "l")]),
+    ] + _generated_choices()
 
 
 class OptimizedClasses(Direct):
@@ -265,6 +297,11 @@ class CIStrings(Direct):
                 lit = v
             run.oblige(f"{v!r}.interp.literal", lit == v)
             run.oblige(f"{v!r}.interp.flag_I", ic)
+            # the operator contract of ^"v" assumes SIMPLE case folding (a match has exactly len(v) characters, which
+            # CIString.parse relies on when it advances by len(self.value)): no VERSION1 / FULLCASE on the interpreter's pattern
+            import regex as _rx
+
+            run.oblige(f"{v!r}.interp.simple_case_folding", not (c._re.flags & (_rx.VERSION1 | _rx.FULLCASE)), note=f"flags={int(c._re.flags)}")  # noqa: SLF001
             _code, consts = emit.emit_expression(c, {})
             ok = len(consts) == 1
             if ok:
